@@ -537,7 +537,7 @@ STD_ONLY = re.compile(r'^(std::vec::|std::collections::|HSET|HMAP|<HSET as |<HMA
 # adaptors that keep order and multiplicity); mutating or order-changing ones (truncate, drain, retain, sort, swap_remove, ...) are not
 IDIOM_OPS = {'contains', 'contains_key', 'get', 'len', 'is_empty', 'iter', 'into_iter', 'next', 'position', 'enumerate', 'map', 'cloned', 'copied', 'collect',
              'pop', 'push', 'extend', 'append', 'reverse', 'rev', 'last', 'first', 'sum', 'ok_or', 'ok_or_else', 'unwrap_or', 'is_some', 'is_none', 'is_ok', 'is_err', 'as_ref', 'values', 'keys',
-             'any', 'all', 'find', 'for_each', 'count', 'index', 'skip', 'eq', 'ne', 'push_back', 'push_front', 'pop_back', 'pop_front', 'call', 'call_mut', 'call_once', 'split_last', 'split_first', 'saturating_sub', 'with_capacity', 'new', 'default', 'and_then', 'ok', 'filter_map', 'flatten', 'zip', 'chain', 'by_ref', 'peekable', 'once', 'from_iter', 'from'}
+             'any', 'all', 'find', 'for_each', 'count', 'index', 'skip', 'eq', 'ne', 'push_back', 'push_front', 'pop_back', 'pop_front', 'call', 'call_mut', 'call_once', 'split_last', 'split_first', 'saturating_sub', 'with_capacity', 'new', 'default', 'and_then', 'ok', 'filter_map', 'flatten', 'zip', 'chain', 'by_ref', 'peekable', 'once', 'from_iter', 'from', 'unwrap_or_else'}
 
 
 ITER_PLUMBING = {'iter', 'into_iter', 'next', 'map', 'cloned', 'copied', 'collect', 'enumerate', 'sum', 'for_each', 'by_ref', 'values', 'keys', 'as_ref', 'len', 'with_capacity', 'new'}
@@ -884,6 +884,23 @@ def sib(ctx):
                 # one-sided API: listed in the evidence, not judged (the property is about the common API)
                 ctx.cache.setdefault('evidence_extra', {}).setdefault('C15', {}).setdefault('one_sided_impls', []).append('%s for %s only in %s' % (x[1], x[0], a if x in ta else s))
     ctx.cache.setdefault('evidence_extra', {}).setdefault('C15', {})['unpaired_functions'] = {'plain_only': op, 'sync_only': os_}
+    # one-sided API is not judged -- except on a type that implements Deref: an inherent method takes priority over the methods of
+    # the Deref target at *existing* call sites (`node.contains(&k)` used to reach the value's own `contains`), so a method that
+    # exists in one flavour only changes what a common program computes
+    deref_types = {im['self_q'] for im in F.impls if im['trait'] == 'std::ops::Deref'}
+    for side, qs in (('plain', op), ('sync', os_)):
+        for q in qs:
+            b_ = F.bodies.get(q)
+            if b_ is None or b_['kind'] == 'Closure' or b_['impl_trait'] or b_['impl_self_q'] not in deref_types:
+                continue
+            if F.fns.get(q, {}).get('vis') != 'Public' or b_['argc'] < 1:
+                continue
+            t1_ = F.types[b_['locals'][1]]
+            is_self = t1_.get('p') == b_['impl_self_q'] or (t1_['k'] == 'ref' and t1_.get('a') and F.types[t1_['a'][0]].get('p') == b_['impl_self_q'])
+            if not is_self:
+                continue
+            out.append(Obl('SIB-API', q, b_['span'], 'no one-sided public method on a type that derefs to the user value', False,
+                           '%s exists only in the %s flavour: it shadows `value.%s(..)` reached through Deref at existing call sites' % (q, side, b_['name'])))
     ctx.cache['evidence_extra']['C15']['structural_differences_tolerated'] = tolerated
     return out
 
